@@ -114,4 +114,15 @@ theorem fp_float_expected :
     [fp_floatAdaptiveEncoding, fp_floatAdaptiveDecoding, fp_floatCompressNull, fp_sameValueDecoding, fp_rleEncoding, fp_rleDecoding, fp_paddingBuffer, fp_snappyEncoding, fp_snappyDecoding, fp_gorillaEncoding, fp_gorillaDecoding, fp_encFloatEncoding, fp_encFloatDecoding] =
     ["6cb26c9ebf1572de", "6aec8ec978dc3007", "45167b4d0331af6c", "056ce65d8f240353", "565d6a260174dcc6", "b02b88560d759df1", "6ad47c77d84e104a", "1547a0dd65f70437", "01d8b1bc86343cad", "90e6cbd7010134c6", "07219919ad790f32", "9aca60f148a21e8c", "812ccc246ef2f2f6"] := by rfl
 
+/-! engine/wal.go: the reader decodes only a completely read body (after the `fix:` commit) -/
+theorem wal_accept_expected : walAcceptCond = "err == nil" := by rfl
+theorem wal_cfg_expected : (walDecodeOnEOF, walDecodeOnUnexpectedEOF) = (false, false) := by rfl
+theorem wal_type_guard_expected :
+    walTypeGuard = "writeWalType <= WriteWalUnKnownType || writeWalType >= WriteWalEnd" := by rfl
+theorem wal_consts_expected :
+    (walRecordHeadSize, walTypeNames)
+      = (5, ["WriteWalUnKnownType", "WriteWalLineProtocol", "WriteWalArrowFlight", "WriteWalEnd"]) := by rfl
+theorem fp_wal_expected :
+    [fp_walReplayPhysicRecord, fp_walWriteBinary] = ["6ca6bac463cca4b0", "f4eaaae58d1afbee"] := by rfl
+
 end OG.C07.Facts
